@@ -2,6 +2,7 @@ package main
 
 import (
 	"fmt"
+	"os"
 	"strings"
 
 	"golang.org/x/tools/go/ssa"
@@ -143,6 +144,11 @@ func init() {
 		},
 		"vpIteInt": func(in *Interp, fr *Frame, args []Value, call *ssa.CallCommon) Value {
 			return tIte(args[0].(*Term), args[1].(*Term), args[2].(*Term))
+		},
+		"vpPrint": func(in *Interp, fr *Frame, args []Value, call *ssa.CallCommon) Value {
+			// rendered under the path's current model (symbolic parts shown by their model value)
+			fmt.Fprintf(os.Stderr, "vpPrint: %s %s\n", concreteStr(args[0], "label"), in.renderObs(obsRec{"v", args[1].(Iface)}, in.ev))
+			return nil
 		},
 		"vpIsSymbolic": func(in *Interp, fr *Frame, args []Value, call *ssa.CallCommon) Value {
 			return tTrue
